@@ -7,8 +7,10 @@ package main
 import (
 	"fmt"
 	"os"
+	"os/signal"
 	"runtime/debug"
 	"sort"
+	"syscall"
 
 	"go.etcd.io/bbolt/verifh/drivers"
 )
@@ -51,6 +53,13 @@ func main() {
 	}
 	c := drivers.NewCtx(prop, tier)
 	c.Replay = replay
+	sig := make(chan os.Signal, 1)
+	signal.Notify(sig, syscall.SIGTERM, syscall.SIGINT)
+	go func() {
+		<-sig
+		c.Abort()
+		os.Exit(130)
+	}()
 	code := d(c)
 	c.Close()
 	os.Exit(code)
